@@ -971,7 +971,22 @@ func genSysBatch(rng *vh.Rng, k int) sysBatch {
 		if _, err := fieldsParse(ft); err != nil && rng.Chance(3, 4) {
 			ft = spellPairsQuoted(fp)
 		}
-		c := sysCase{Tags: hin(tt), Fields: hin(ft), Fields2: hin(spellText(rng, genPairs(rng)))}
+		// event-level field texts: mostly acceptable (one unparsable text rejects the whole write), 1/8 whatever comes
+		evText := func() string {
+			ps := genPairs(rng)
+			t := spellText(rng, ps)
+			if rng.Chance(1, 8) {
+				return t
+			}
+			for try := 0; try < 6; try++ {
+				if _, err := fieldsParse(t); err == nil {
+					return t
+				}
+				t = spellText(rng, ps)
+			}
+			return spellPairsQuoted(ps)
+		}
+		c := sysCase{Tags: hin(tt), Fields: hin(ft), Fields2: hin(evText())}
 		if rng.Chance(2, 3) {
 			// several events in one write: consecutive records of one partition, messages of equal length; event-level
 			// fields: the same names with values of equal length but different content (a cache keyed on the previous
@@ -1003,7 +1018,7 @@ func genSysBatch(rng *vh.Rng, k int) sysBatch {
 				case 2:
 					c.More = append(c.More, c.Fields2)
 				default:
-					c.More = append(c.More, hin(spellText(rng, genPairs(rng))))
+					c.More = append(c.More, hin(evText()))
 				}
 			}
 		}
@@ -1051,9 +1066,13 @@ func runSysBatch(sb sysBatch, sec *vh.Section) {
 		// a text on which a parser panics is already recorded as a failure by the wrappers; it is not sent to the server
 		// (the same parser runs there in a goroutine of the RPC layer: the panic would end this process, not the case)
 		panics := (perr != nil && strings.HasPrefix(perr.Error(), "panic:")) || (ferr != nil && strings.HasPrefix(ferr.Error(), "panic:"))
+		evOK := true // every event's own field text must parse (c6bbc14: the whole packet is validated before anything is written)
 		for _, ef := range evf {
-			if _, err := fieldsParse(ef); err != nil && strings.HasPrefix(err.Error(), "panic:") {
-				panics = true
+			if _, err := fieldsParse(ef); err != nil {
+				evOK = false
+				if strings.HasPrefix(err.Error(), "panic:") {
+					panics = true
+				}
 			}
 		}
 		if panics {
@@ -1070,7 +1089,7 @@ func runSysBatch(sb sysBatch, sec *vh.Section) {
 		if err == nil {
 			err = wr.Err
 		}
-		accept := perr == nil && !set.IsEmpty() && ferr == nil
+		accept := perr == nil && !set.IsEmpty() && ferr == nil && evOK
 		res.Dist(sec, fmt.Sprintf("write-accepted=%v", err == nil))
 		if err != nil && isResourceErr(err) {
 			res.Note("system: write skipped (infrastructure): %v", err)
@@ -1078,7 +1097,7 @@ func runSysBatch(sb sysBatch, sec *vh.Section) {
 		}
 		if (err == nil) != accept {
 			res.SpecFail(vh.SpecFailure{Section: "system", Kind: "write-acceptance", Input: sb, Impl: fmt.Sprint(err), Spec: fmt.Sprintf("accepted=%v", accept),
-				What: "a write is accepted exactly when tag.Parse gives a non-empty set and NewFieldsFromKVString accepts the fields"})
+				What: "a write is accepted exactly when tag.Parse gives a non-empty set and NewFieldsFromKVString accepts the write-level fields and every event's own fields"})
 		}
 		if err != nil {
 			continue
